@@ -16,19 +16,35 @@ def _stateful(cfg):
     return bool(cfg.get("state"))
 
 
+def _alexander(cfg):
+    return cfg.get("model") == "alexander"
+
+
+def _ogden_roxburgh_pair(cfg):
+    return str(cfg.get("pair", "")).startswith("OgdenRoxburgh")
+
+
 CARRIED = {
+    # AD-backed models: stress and elasticity are derivatives of the model function BY the AD contract -- provided the
+    # model function is a differentiable expression of its argument.  Two model functions step outside that premise:
+    # `alexander` (hand-built dual number: its parts must be the variations of one function, C11 `model_other`) and the
+    # tensortrax `ogden_roxburgh` (history maximum; stop-gradient constructs like Tensor.x would detach the tangent from
+    # the stress: compared entry by entry with the hand-coded class in C12 `handcoded`)
+    "C03": [("C11", "model_other", _alexander), ("C12", "handcoded", _ogden_roxburgh_pair)],
     # the Newton driver is verified (E2 loop cut) against items whose assemble.vector / assemble.matrix only compute a
     # TENTATIVE new state and commit nothing (commit happens in update_statevars on success only): that is the C01
     # contract of the real SolidBody around a material with stored state variables
     # ... external-load items ramped through update() (PointLoad) are the C14 `loads` contract
-    "C07": [("C01", "solidbody", _stateful), ("C14", "loads", lambda cfg: cfg.get("item") == "pointload")],
+    # ... and the vector of current values that partition() reads (u0 = values[dof0]) is the C08 `container` contract
+    "C07": [("C01", "solidbody", _stateful), ("C14", "loads", lambda cfg: cfg.get("item") == "pointload"), ("C08", "container", None)],
     # C15 also: the state vector a user material's history reaches the solid body through is MaterialStrain's (C03
     # framework contract around any user material); the step / substep counters a user callback of a
     # CharacteristicCurve receives are the C09 `curve_callback` contract
     "C15": [("C01", "solidbody", _stateful), ("C03", "small_strain_user", None), ("C03", "composite", None), ("C09", "curve_callback", None), ("C14", "loads", lambda cfg: cfg.get("item") == "pointload")],
     # solid bodies on mixed u/p/J fields are verified against StubMixedMaterial (blocks == mixed derivatives of the
     # three-field functional), follower loads against StubAreaChange (cofactor and its derivative)
-    "C01": [("C03", "mixed", None), ("C03", "kinematics", None)],
+    # ... and the block placement of mixed-field matrices (upper-triangle storage / full block lists) is C02 `mixed_blocks`
+    "C01": [("C03", "mixed", None), ("C03", "kinematics", None), ("C02", "mixed_blocks", None)],
     # condensed vs explicit three-field: the explicit side is the real NearlyIncompressible / ThreeFieldVariation law
     # whose blocks are the C03 `mixed` contract
     "C10": [("C03", "mixed", None)],
@@ -43,5 +59,10 @@ CARRIED = {
     # Step.generate (ramp subdivision, x0 hand-over): their E2 contracts live in C15
     # ... and the boundary conditions of the uniaxial / biaxial / shear load cases (dof.symmetry and friends) are the
     # C08 `loadcase` contract (grid stand-in excluded: bounded)
+    # the numbering of cell-less points (get_dof0) and of multi-body dual fields (FieldDual / FieldsMixed: mesh.dual with
+    # offset / npoints) comes from the mesh bookkeeping, under contract in C16
+    "C08": [("C16", "update_bookkeeping", None), ("C16", "structure", lambda cfg: cfg.get("op") == "dual")],
+    # averaging at the points divides by mesh.cells_per_point (C16 bookkeeping)
+    "C19": [("C16", "update_bookkeeping", None)],
     "C09": [("C15", "Job.evaluate", None), ("C15", "Step.generate", None), ("C08", "loadcase", None)],
 }
